@@ -213,8 +213,19 @@ let judge _id (c : cursor) (r : cursor) : bool * string =
       (match rcounts_ok true irtree with
        | Some m -> oracle_fail "tree_counts_invariant" site (opsite ^ ": " ^ m)
        | None -> ());
-      (* every action estimate lies between the extreme knowledge measures: max-belief in [0,1] *)
-      ()
+      (* value range, max-of-belief variant, call from scratch: every knowledge measure (the only reward)
+         lies in [0,1] (Proofs: r_update_km_unit), so every visited action's value at depth d should lie in
+         [0, sum_{k<h-d} disc^k].  The real code violates the lower bound (value_in_range_rpomcp_refuted;
+         known finding): the value handed to the parent, (N-1)*(V-oldV)+V, ignores that leaf visits of the
+         node contributed 0. *)
+      if entropy = 0 && opk = "F" && h > 0 then begin
+        let one = q_of_ints 1 1 in
+        match range_ok disc one h 0 itree with
+        | Some (w, v, b) -> oracle_fail "value_in_range" site (Printf.sprintf "%s: |V| = %s exceeds the %s bound %s" opsite (string_of_q v) w (string_of_q b))
+        | None ->
+          let rec neg (n : node) = List.exists (fun a -> (ioN (aN a) > 0 && q_lt (aV a) (q_of_ints (-1) 1000000)) || List.exists (fun (_, c) -> neg c) (kids a)) (acts n) in
+          if neg itree then oracle_fail "value_in_range" site (opsite ^ ": a negative action value in the max-of-belief variant")
+      end
     end else
     if not (counts_okb itree) then oracle_fail "tree_counts_invariant" site (opsite ^ ": a node's N differs from the sum of its actions' N in the dumped tree");
     let steps_i = group_steps evs in
@@ -328,6 +339,9 @@ let judge _id (c : cursor) (r : cursor) : bool * string =
       (* C: replay on the rPOMCP machine *)
       let tr = List.map (fun x -> x.e) evs in
       let op = if opk = "F" then RFresh (isb, nat_of_int h) else RAdvance (nat_of_int a1, nat_of_int a2, nat_of_int h, isb) in
+      (* hypothesis of particles_consistent_full_rpomcp, evaluated on the real log by the Coq checker *)
+      if not (r_coh_op a_n term disc (nat_of_int kk) (entropy <> 0) plogp iters_n !rtree op tr) then
+        disagree "log_coherent" site (opsite ^ ": the log is not coherent with the planner's state threading (r_coh_op = false)");
       let (sb_m, (((g', act), tr'), steps_m)) = r_op a_n term disc (nat_of_int kk) (entropy <> 0) plogp iters_n !rtree op tr in
       let steps_mi = List.map ioN steps_m in
       if steps_mi <> steps_i then disagree "simulation_boundaries" site (Printf.sprintf "%s: model calls per simulation: model [%s] impl [%s]" opsite (str_ints steps_mi) (str_ints steps_i));
